@@ -117,8 +117,12 @@ func runC12(c *engine.Ctx) {
 	str := func(pos string) string {
 		switch pos {
 		case "matrix.value", "adj.value":
-			if p.Draw(4, "str:tokval?") == 3 {
+			switch p.Draw(8, "str:tokval?") {
+			case 6, 7:
 				return tokenValues[p.Draw(len(tokenValues), "str:tokval")]
+			case 5:
+				// values that mean something to a template or shell engine: they are plain text here
+				return []string{"$HOME/bin", "${TARGET}-release", "price-$1", "a$$b", "$0", "${1}x", "\\1", "$", "%s", "{{.}}", "$matrix"}[p.Draw(11, "str:dollarval")]
 			}
 			return gen.Word(p, "str:"+pos)
 		case "cache.name", "cache.path", "cache.size", "cache.xkey", "cache.x.val", "cache.x.key":
@@ -195,6 +199,11 @@ func runC12(c *engine.Ctx) {
 				}
 				m.Set("adjustments", adjs)
 			}
+		}
+		// an unknown key of the matrix itself (kept, and signed, as part of the matrix): the matrix is not in scope
+		if m.Kind == gen.KMap && p.Draw(4, "m:extra") == 3 {
+			m.Set("x-"+gen.Word(p, "m:xkey")+"-{{matrix}}", gen.Map().Set("note", gen.Str(gen.MatrixTokenString(p, "m:xval", dims))).Set("{{matrix."+dims[0]+"}}", gen.Str("v")))
+			c.Probe("matrix_extra_key_with_tokens")
 		}
 		step.Set("matrix", m)
 	}
@@ -393,6 +402,11 @@ func runC12(c *engine.Ctx) {
 	}
 
 	var ierr error
+	if len(perm) == 0 && p.Draw(2, "perm:nil-map") == 1 {
+		// the empty permutation given as a nil map
+		perm = nil
+		c.Probe("nil_permutation_runs")
+	}
 	c.Guard("C12.panic", "InterpolateMatrixPermutation", func() { ierr = cs.InterpolateMatrixPermutation(perm) })
 	after := view.Dump(&cs)
 	c.Ev("interpolated", ierr != nil, len(perm))
